@@ -52,16 +52,16 @@ func runC37(c *core.Ctx) error {
 	if err != nil {
 		return err
 	}
-	nd := c.Pick(7, 10)
+	nd := c.Pick(8, 10)
 	no := c.Pick(6, 8)
 	cfgs := []acksCfg{
 		{Name: "dense", Points: rangeInts(0, nd), Combs: []int{0}},
 		// 2^32-2 is the largest number: to+1 never wraps
 		{Name: "dense-near-2^32", Points: rangeInts(1, no), Combs: []int{0}, Off: ^uint32(0) - 1 - uint32(no)},
 		// > 50 ranges: BuildNegativeAck's cut-off and BuildAck's cut-off at a range boundary
-		{Name: "comb", Points: pickInts(c, []int{0, 1, 2, 99, 100, 101, 102, 103, 104}, append(rangeInts(0, 3), rangeInts(95, 107)...)), Combs: pickInts(c, []int{50, 51}, []int{48, 49, 50, 51, 52}), Bound: 2},
+		{Name: "comb", Points: pickInts(c, append(rangeInts(0, 3), rangeInts(97, 105)...), append(rangeInts(0, 3), rangeInts(95, 107)...)), Combs: pickInts(c, []int{50, 51}, []int{48, 49, 50, 51, 52}), Bound: 2},
 		// BuildAck's 50-number cut-off in the middle of a range
-		{Name: "wide", Points: pickInts(c, []int{0, 1, 10, 60, 61, 62, 63, 70, 120}, []int{0, 1, 2, 10, 40, 59, 60, 61, 62, 63, 64, 70, 120}), Combs: pickInts(c, []int{1}, []int{0, 1}), Bound: c.Pick(2, 3)},
+		{Name: "wide", Points: []int{0, 1, 2, 10, 40, 59, 60, 61, 62, 63, 64, 70, 120}, Combs: pickInts(c, []int{1}, []int{0, 1}), Bound: c.Pick(2, 3)},
 	}
 	classes := map[string]int{}
 	for _, cfg := range cfgs {
@@ -321,7 +321,7 @@ func traceC37(c *core.Ctx, drv string) error {
 		p.Limit = 5 * time.Minute
 		f := filepath.Join(c.Scratch, fmt.Sprintf("acks-%d.ndjson", time.Now().UnixNano()))
 		var got map[string]any
-		if err := p.Call(map[string]any{"obj": "ackstrace", "seed": c.Seed, "count": c.Pick(2500, 40000), "out": f}, &got); err != nil {
+		if err := p.Call(map[string]any{"obj": "ackstrace", "seed": c.Seed, "count": c.Pick(4000, 60000), "out": f}, &got); err != nil {
 			return nil, err
 		}
 		if m, ok := got["fatal"]; ok {
